@@ -81,7 +81,7 @@ func C13(p *core.Prog, r *core.Report) {
 	r.Rule("INT-3", "the body digest is Sum after Reset and exactly io.Copy(h, <the opened file>) with no other I/O on the file between the header read and the copy; the decompressor is created after a seek to the end of the header", 3)
 	r.Rule("INT-4", "ReadHeader accepts a header only when the read returned exactly the requested number of bytes (or uses io.ReadFull)", 1)
 	r.Rule("INT-5", "the file name in Open and in CreateLevel is the same function of both key digests", 3)
-	r.Rule("INT-6", "write protocol: CreateLevel writes the placeholder before creating the compressor; (*File).Close flushes the compressor, seeks past the header, hashes the body into BodySum and only then rewinds and writes the header; every header-length expression uses the number of Header fields as its factor; WriteTo and ReadHeader lay the fields out in declared order", 8)
+	r.Rule("INT-6", "write protocol: CreateLevel writes the placeholder before creating the compressor; (*File).Close flushes the compressor, seeks past the header, hashes the body into BodySum and only then rewinds and writes the header; every header-length expression uses the number of Header fields as its factor; WriteTo and ReadHeader lay the fields out in declared order; the placeholder is all zero", 9)
 	r.Rule("INT-8", "errors inside (*File).Close and CreateLevel follow the enumerated idioms, and a failed finalisation removes the entry", 10)
 	r.Rule("INT-9", "(*File).Write/Read pass their buffer to the compressor/decompressor and return its result", 2)
 	r.NotDecided = append(r.NotDecided, "collision resistance of the digest", "compress/flate's round trip", "the file system's behaviour at a crash point", "byte-level enumeration of corruptions (needs execution)")
@@ -797,7 +797,16 @@ func (c *ctx) protocol(hf []*types.Var) {
 			}
 		}
 		if wr == nil || nw == nil {
-			r.Und("INT-6", fn+"|placeholder", p.Pos(fd.Pos()), "no placeholder write / compressor creation found")
+			early := false
+			for _, call := range core.Calls(fd.Body) {
+				if core.IsCallTo(info, call, core.PkgCache+".Header.WriteTo") && (nw == nil || call.Pos() < nw.Pos()) {
+					early = true
+					r.Bad("INT-6", fn+"|placeholder-invalid", p.Pos(call.Pos()), "a real header is written before the body instead of an all-zero placeholder: a writer interrupted before any compressed byte reaches the file leaves a self-consistent entry for an empty body that Open accepts")
+				}
+			}
+			if !early {
+				r.Und("INT-6", fn+"|placeholder", p.Pos(fd.Pos()), "no placeholder write / compressor creation found")
+			}
 		} else {
 			fl := core.NewFlow(info, fd.Body)
 			if fl.Dominates(fl.Find(wr), fl.Find(nw)) && core.ObjOf(info, methodRecv(wr)) == core.ObjOf(info, nw.Args[0]) {
@@ -807,8 +816,17 @@ func (c *ctx) protocol(hf []*types.Var) {
 			}
 			if mk, ok := ast.Unparen(wr.Args[0]).(*ast.CallExpr); ok && core.IsBuiltin(info, mk, "make") && len(mk.Args) >= 2 {
 				c.factor(fn+"|placeholder", mk.Args[1], len(hf), fd)
+				r.Ok("INT-6", fn+"|placeholder-invalid", p.Pos(wr.Pos()), "the placeholder is a fresh all-zero buffer: it cannot validate against any digest, so a writer interrupted before Close leaves an entry Open rejects")
 			} else {
-				r.Und("INT-6", fn+"|placeholder|factor", p.Pos(wr.Pos()), "placeholder is not make([]byte, n)")
+				r.Bad("INT-6", fn+"|placeholder-invalid", p.Pos(wr.Pos()), "the bytes written before the body are not an all-zero placeholder: if they form a self-consistent header, a writer interrupted before any body byte reaches the file leaves an entry that Open accepts")
+			}
+		}
+		// no other write to the file (e.g. a real header through WriteTo) before the compressor exists
+		if nw != nil {
+			for _, call := range core.Calls(fd.Body) {
+				if call.Pos() < nw.Pos() && core.IsCallTo(info, call, core.PkgCache+".Header.WriteTo") {
+					r.Bad("INT-6", fn+"|placeholder-invalid", p.Pos(call.Pos()), "a real header is written before the body: a writer interrupted before any compressed byte reaches the file leaves a self-consistent entry for an empty body that Open accepts")
+				}
 			}
 		}
 	}
